@@ -112,7 +112,7 @@ pub fn judge_plane(ctx: &mut Ctx, x: f64, y: f64) {
   ctx.eval();
   let d = dist(r, (lon, lat));
   ctx.worst_max("unproj_vs_reference_rad", d);
-  if d > 1e-14 { ctx.violation("unproj-differs-from-reference-formulae", mk(), format!("-> {:?} ref {:?} d={:e}", (lon, lat), r, d)); }
+  if d > 1e-13 { ctx.violation("unproj-differs-from-reference-formulae", mk(), format!("-> {:?} ref {:?} d={:e}", (lon, lat), r, d)); }
   let near = |v: f64, t: f64| (v - t).abs() <= 1e-15 * t.abs().max(1.0) * 4.0;
   let facet = near(x.abs(), x.abs().round()) || near(ya, 1.0) || near(ya, 2.0) || (ya > 1.0 && { let xa = x.abs(); let xc = 2.0 * (xa / 2.0).floor().min(3.0) + 1.0; near((xa - xc).abs(), 2.0 - ya) });
   if facet { ctx.hard("plane-facet-boundary", &[x.to_bits(), y.to_bits()]); if ctx.samples.len() < 8 && ctx.evals % 13 == 0 { ctx.sample(&mk(), &format!("unproj={:?}", (lon, lat))); } }
